@@ -12,6 +12,10 @@ import (
 
 var IntMode bool
 
+// intBinopExt is an extension hook for int-mode binary operators that intBinop does not
+// translate itself (set from x_*.go files); it returns nil when it cannot handle the case either.
+var intBinopExt func(op token.Token, k types.BasicKind, a, b *Term) value
+
 var IntSort = Sort{W: -1}
 
 func isIntSort(s Sort) bool { return s.W == -1 }
@@ -40,6 +44,9 @@ func kindRange(k types.BasicKind) (lo, hi *big.Int) {
 func iv(t *Term) ival {
 	if v, ok := ivals[t]; ok {
 		return v
+	}
+	if t.IsConst() && isIntSort(t.Sort) {
+		return ival{t.Val, t.Val}
 	}
 	return ival{}
 }
@@ -354,6 +361,11 @@ func intBinop(op token.Token, x, y value) value {
 				}
 			}
 			return ti(r)
+		}
+	}
+	if intBinopExt != nil {
+		if v := intBinopExt(op, kx, a, b); v != nil {
+			return v
 		}
 	}
 	panic(unsupported(fmt.Sprintf("int mode: binop %s", op)))
